@@ -86,6 +86,22 @@ def rule_R2(ck):
     I = lazy_interp(repo)
     V = sym.var("V", "int")
     calls = []
+    # get_current_best_estimate: the object itself while unknown, the value once known (every deferred class)
+    def estimates():
+        bt = I.builtin_types["int"]
+        D, P = I.module_get("deferred", "Deferred"), I.module_get("deferred", "Promise")
+        d = I.instantiate(D, [bt, PyFn(lambda I_, a, k: V)], {})
+        p_ = I.instantiate(P, [bt, "p"], {})
+        before = (I.call_method(d, "get_current_best_estimate", []) is d, I.call_method(p_, "get_current_best_estimate", []) is p_)
+        I.call_method(d, "wait", [])
+        I.call_method(p_, "settle", [V])
+        after = (I.call_method(d, "get_current_best_estimate", []), I.call_method(p_, "get_current_best_estimate", []))
+        return before, after
+    ps = I.explore(estimates)
+    ck.instance("best-estimate", {"unknown -> itself, known -> value": repr(ps[0].value) if ps else None}, fn="deferred::Deferred.get_current_best_estimate")
+    if len(ps) != 1 or ps[0].kind != "return" or ps[0].value != ((True, True), (V, V)):
+        ck.violation("deferred::Deferred.get_current_best_estimate", f"get_current_best_estimate of (a thunk, a promise) before / after they are known gives {ps[0].value!r}; expected the object itself while unknown "
+                                                                     "and the value afterwards: polynomial arithmetic substitutes estimates, a wrong one silently changes symbol values", construct="best estimate")
 
     def thunk_fail():
         D = I.module_get("deferred", "Deferred")
@@ -405,6 +421,41 @@ def rule_R7(ck):
         ck.violation(where, f"(K1 + L) - K1 with K1 still unknown evaluates to {ps[0].value!r}; the unknown must cancel and leave L", construct="poly cancellation")
 
 
+def rule_R7t(ck):
+    """The same cancellation through the expression TOKENS ('K + end - start' as written in a source): the operators + - and
+    unary - + and * by a constant must hand unknown operands to the polynomial arithmetic, not force them (an operator registered as
+    'awaited' waits for its operands inside a thunk: the unknown base never cancels)."""
+    repo = ck.repo
+    I = eager_interp(repo)
+    I.summaries = {"reports::emit_report": emit_report_summary}
+    where = "operators::InfixOperator.resolve"
+    L = sym.var("L", "int")
+
+    def prom(name):
+        return I.instantiate(I.module_get("deferred", "Promise"), [I.builtin_types["int"], name], {})
+    cases = [("(K + L) - K", lambda sh, K: sh.bin("sub", sh.bin("add", sh.xexpr(K, "K"), sh.xexpr(L, "L")), sh.xexpr(K, "K")), L),
+             ("K - (K - L)", lambda sh, K: sh.bin("sub", sh.xexpr(K, "K"), sh.bin("sub", sh.xexpr(K, "K"), sh.xexpr(L, "L"))), L),
+             ("-K + (K + L)", lambda sh, K: sh.bin("add", sh.un("neg", sh.xexpr(K, "K")), sh.bin("add", sh.xexpr(K, "K"), sh.xexpr(L, "L"))), L),
+             ("+K - K + L", lambda sh, K: sh.bin("add", sh.bin("sub", sh.un("pos", sh.xexpr(K, "K")), sh.xexpr(K, "K")), sh.xexpr(L, "L")), L),
+             ("2 * K - K - K + L", lambda sh, K: sh.bin("add", sh.bin("sub", sh.bin("sub", sh.bin("mul", sh.number("2", 2), sh.xexpr(K, "K")), sh.xexpr(K, "K")), sh.xexpr(K, "K")), sh.xexpr(L, "L")), L),
+             ("K * 2 - 2 * K + L", lambda sh, K: sh.bin("add", sh.bin("sub", sh.bin("mul", sh.xexpr(K, "K"), sh.number("2", 2)), sh.bin("mul", sh.number("2", 2), sh.xexpr(K, "K"))), sh.xexpr(L, "L")), L)]
+    for text, build, want in cases:
+        def thunk(build=build):
+            sh = Shapes(I)
+            K = prom("K")          # never settled
+            r = I.call_method(build(sh, K), "resolve", [{"emit_address": 0}])
+            return I.call(I.module_get("deferred", "wait"), [r], {})
+        try:
+            ps = I.explore(thunk)
+        except Unsupported as ex:
+            raise Unknown(f"{text}: {ex}") from None
+        gen = [p for p in ps if all(v for k, v in p.decisions)] or ps
+        ck.instance(("token-cancel", text), {"expression with K still unknown": text, "value": repr(gen[0].value)}, fn=where)
+        if gen[0].kind != "return" or gen[0].value != want:
+            ck.violation(where, f"the expression '{text}' with K still unknown evaluates to {gen[0].value!r} {getattr(gen[0].value, 'args', '')}; the unknown must cancel and leave {want!r} "
+                                "('.link 2000 + end - start' needs this)", construct="cancellation through operator tokens")
+
+
 def rule_R8(ck):
     repo = ck.repo
     fn = repo.func("types::Symbol._resolve")
@@ -551,6 +602,7 @@ def run(ck):
     ck.run_rule("G1", "deferred thunks capture by value", 20, thunks.rule_G1)
     ck.run_rule("C03.R6", "operators defer on unknown operands and later apply the same operation", 9, rule_R6)
     ck.run_rule("C03.R7", "LinearPolynomial algebra as polynomial normal forms", 18, rule_R7)
+    ck.run_rule("C03.R7t", "unknowns cancel through the operator tokens + - * (not forced by the operators)", 6, rule_R7t)
     ck.run_rule("C03.R8", "no early commitment to an exported binding", 2, rule_R8)
     ck.run_rule("C03.R9", "symbol tables are read by duplicate guards, lazily, or finally", 8, rule_R9)
     ck.run_rule("C02.R7w", "unused definitions are evaluated too (their errors do not depend on use order)", 1, c02.rule_closing_wait)
